@@ -42,7 +42,7 @@ end
 
 section
 variable {Opts Factory : Type} [BEq Opts] [Hashable Opts] [LawfulBEq Opts]
-variable (T : Code → Opts → Nat → Factory) (P : List (Request Opts))
+variable (T : Code → Opts → Nat → Option Factory) (P : List (Request Opts))
 
 /-- Distinct code objects of the history have distinct values (no two live code objects compare
 equal without being identical). -/
@@ -62,7 +62,7 @@ def PcInv (s : State Opts Factory) (r : Request Opts) : Pc Factory → Prop
   | .st1 _ => table s r.code r.opts = none
   | .st1c _ => ofind r.code s.outer = none
   | .st2 _ b => ofind r.code s.outer = some b ∧ bfind r.opts (bucketAt s b) = none
-  | .rel res _ => ∃ f, res = some f ∧ table s r.code r.opts = some f
+  | .rel res _ => table s r.code r.opts = res
   | .inst f _ => table s r.code r.opts = some f
   | _ => True
 
@@ -189,7 +189,7 @@ namespace Malt.Cache
 
 section
 variable {Opts Factory : Type} [BEq Opts] [Hashable Opts] [LawfulBEq Opts]
-variable {T : Code → Opts → Nat → Factory} {P : List (Request Opts)}
+variable {T : Code → Opts → Nat → Option Factory} {P : List (Request Opts)}
 
 /-- `PcInv` only looks at the lookup of the request's own code object and at the heap. -/
 theorem PcInv_congr {s s' : State Opts Factory} {r : Request Opts}
@@ -201,7 +201,7 @@ theorem PcInv_congr {s s' : State Opts Factory} {r : Request Opts}
   cases pc <;> simp [PcInv, ho, hb, ht]
 
 /-- What the acting thread does, justified by the invariant. -/
-structure ActOK (s : State Opts Factory) (t : Tid) (th : Thread Opts Factory) (r : Request Opts)
+structure ActOK (T : Code → Opts → Nat → Option Factory) (s : State Opts Factory) (t : Tid) (th : Thread Opts Factory) (r : Request Opts)
     (eff : Eff Opts Factory) (nxt : Next Factory) : Prop where
   create : ∀ c, eff = .create c → c = r.code ∧ ofind c s.outer = none ∧ ∃ f, th.pc = .st1c f
   store : ∀ b o f, eff = .store b o f →
@@ -211,11 +211,15 @@ structure ActOK (s : State Opts Factory) (t : Tid) (th : Thread Opts Factory) (r
   release : eff = .release → ∃ res own, th.pc = .rel res own
   goto : ∀ pc', nxt = .goto pc' → PcInv (applyEff s t eff) r pc' ∧
     (pc'.locked = true ↔ (eff = .acquire ∨ (th.pc.locked = true ∧ eff ≠ .release)))
-  finish : ∀ res, nxt = .finish res → (∃ f, res = some f) ∧ th.pc.locked = false ∧ eff = .nop
+  finish : ∀ res, nxt = .finish res →
+    ((∃ f, res = some f) ∧ th.pc.locked = false ∧ eff = .nop) ∨
+    (res = none ∧ eff = .release ∧ ∃ own, th.pc = .rel none own)
+  relnone : ∀ own, nxt = .goto (.rel none own) → th.pc = .xform ∧ T r.code r.opts r.env.sig = none
   blocked : nxt = .blocked → eff = .nop
   st1 : ∀ f, th.pc = .st1 f → eff = .nop ∧ (nxt = .goto (.st1c f) ∨ ∃ b, nxt = .goto (.st2 f b))
   st1c : ∀ f, th.pc = .st1c f → ∃ b, nxt = .goto (.st2 f b)
-  xform : th.pc = .xform → ∃ f, nxt = .goto (.st1 f)
+  xform : th.pc = .xform →
+    (∃ f, nxt = .goto (.st1 f) ∧ eff = .logx r.code r.opts) ∨ (nxt = .goto (.rel none false) ∧ eff = .nop)
   st2 : ∀ f b, th.pc = .st2 f b → eff = .store b r.opts f ∧ nxt = .goto (.rel (some f) true)
 
 @[simp] theorem table_logx (s : State Opts Factory) (t : Tid) (c' : Code) (o' : Opts) (c : Code) (o : Opts) :
@@ -234,7 +238,7 @@ theorem table_of_ofind {s : State Opts Factory} {c : Code} {b : Nat} (h : ofind 
 theorem action_Inv {s : State Opts Factory} (inv : Inv P s) {t : Tid} {th : Thread Opts Factory}
     {r : Request Opts} {rest : List (Request Opts)}
     (hth : s.threads[t]? = some th) (htodo : th.todo = r :: rest) :
-    ActOK s t th r (action T s t r th.pc).1 (action T s t r th.pc).2 := by
+    ActOK T s t th r (action T s t r th.pc).1 (action T s t r th.pc).2 := by
   have hpc := inv.pc t th r rest hth htodo
   cases hp : th.pc with
   | idle =>
@@ -308,7 +312,9 @@ theorem action_Inv {s : State Opts Factory} (inv : Inv P s) {t : Tid} {th : Thre
     rw [hp] at hpc
     simp only [PcInv] at hpc
     simp only [action]
-    constructor <;> simp [hp, PcInv, Pc.locked, hpc]
+    cases hT : T r.code r.opts r.env.sig with
+    | none => constructor <;> simp [hp, PcInv, Pc.locked, hpc, hT]
+    | some f => constructor <;> simp [hp, PcInv, Pc.locked, hpc, hT]
   | st1 f =>
     rw [hp] at hpc
     simp only [PcInv] at hpc
@@ -343,9 +349,10 @@ theorem action_Inv {s : State Opts Factory} (inv : Inv P s) {t : Tid} {th : Thre
   | rel res own =>
     rw [hp] at hpc
     simp only [PcInv] at hpc
-    obtain ⟨f, rfl, hf⟩ := hpc
     simp only [action]
-    constructor <;> simp [hp, PcInv, Pc.locked, hf]
+    cases res with
+    | none => constructor <;> simp [hp, PcInv, Pc.locked, hpc]
+    | some f => constructor <;> simp [hp, PcInv, Pc.locked, hpc]
   | inst f own =>
     rw [hp] at hpc
     simp only [action]
@@ -359,7 +366,7 @@ namespace Malt.Cache
 
 section
 variable {Opts Factory : Type} [BEq Opts] [Hashable Opts] [LawfulBEq Opts]
-variable {T : Code → Opts → Nat → Factory} {P : List (Request Opts)}
+variable {T : Code → Opts → Nat → Option Factory} {P : List (Request Opts)}
 
 theorem holder_unique {s : State Opts Factory} (inv : Inv P s) {t t' : Tid} {th th' : Thread Opts Factory}
     (h1 : s.threads[t]? = some th) (l1 : th.pc.locked = true)
@@ -373,7 +380,7 @@ theorem holder_unique {s : State Opts Factory} (inv : Inv P s) {t t' : Tid} {th 
 /-- A thread outside the critical section keeps its facts when the lock holder creates a bucket
 or stores a factory (and, trivially, under every other effect). -/
 theorem PcInv_other {s : State Opts Factory} (inv : Inv P s) {t : Tid} {th : Thread Opts Factory}
-    {r : Request Opts} {eff : Eff Opts Factory} {nxt : Next Factory} (ok : ActOK s t th r eff nxt)
+    {r : Request Opts} {eff : Eff Opts Factory} {nxt : Next Factory} (ok : ActOK T s t th r eff nxt)
     {r' : Request Opts} {pc' : Pc Factory}
     (hunl : (∀ c, eff ≠ .create c) ∧ (∀ b o f, eff ≠ .store b o f) ∨ pc'.locked = false)
     (h : PcInv s r' pc') : PcInv (applyEff s t eff) r' pc' := by
@@ -429,7 +436,7 @@ theorem PcInv_other {s : State Opts Factory} (inv : Inv P s) {t : Tid} {th : Thr
 
 /-- Effects that touch the dictionaries are performed inside the critical section. -/
 theorem ActOK.locked_of_write {s : State Opts Factory} {t : Tid} {th : Thread Opts Factory}
-    {r : Request Opts} {eff : Eff Opts Factory} {nxt : Next Factory} (ok : ActOK s t th r eff nxt)
+    {r : Request Opts} {eff : Eff Opts Factory} {nxt : Next Factory} (ok : ActOK T s t th r eff nxt)
     (h : ¬ ((∀ c, eff ≠ .create c) ∧ (∀ b o f, eff ≠ .store b o f))) : th.pc.locked = true := by
   cases eff with
   | create c => obtain ⟨_, _, f, hf⟩ := ok.create c rfl; simp [hf, Pc.locked]
@@ -467,10 +474,10 @@ namespace Malt.Cache
 
 section
 variable {Opts Factory : Type} [BEq Opts] [Hashable Opts] [LawfulBEq Opts]
-variable {T : Code → Opts → Nat → Factory} {P : List (Request Opts)}
+variable {T : Code → Opts → Nat → Option Factory} {P : List (Request Opts)}
 
 theorem table_isSome_step {s : State Opts Factory} (inv : Inv P s) {t : Tid} {th : Thread Opts Factory}
-    {r : Request Opts} {eff : Eff Opts Factory} {nxt : Next Factory} (ok : ActOK s t th r eff nxt)
+    {r : Request Opts} {eff : Eff Opts Factory} {nxt : Next Factory} (ok : ActOK T s t th r eff nxt)
     {c : Code} {o : Opts} (h : (table s c o).isSome = true) :
     (table (applyEff s t eff) c o).isSome = true := by
   have hkeys : ∀ e ∈ s.outer, e.2 < s.heap.length := fun e he => (inv.keys e he).2
@@ -509,7 +516,7 @@ theorem after_get_other {s : State Opts Factory} {t t' : Tid} {th : Thread Opts 
 theorem storing_step {s : State Opts Factory} (inv : Inv P s) {t : Tid} {th : Thread Opts Factory}
     {r : Request Opts} {rest : List (Request Opts)} {eff : Eff Opts Factory} {nxt : Next Factory}
     (hth : s.threads[t]? = some th) (htodo : th.todo = r :: rest)
-    (ok : ActOK s t th r eff nxt) {c : Code} {o : Opts} (h : Storing s c o) :
+    (ok : ActOK T s t th r eff nxt) {c : Code} {o : Opts} (h : Storing s c o) :
     Storing (after s t th r eff nxt) c o ∨ (table (after s t th r eff nxt) c o).isSome = true := by
   obtain ⟨t2, th2, r2, rest2, hth2, htodo2, hc, ho, f, hpc2⟩ := h
   by_cases htt : t2 = t
@@ -535,7 +542,8 @@ theorem storing_step {s : State Opts Factory} (inv : Inv P s) {t : Tid} {th : Th
           f, Or.inr (Or.inr ⟨b, rfl⟩)⟩
     · obtain ⟨rfl, rfl⟩ := ok.st2 f b hpc
       right
-      obtain ⟨⟨f', hf', htab⟩, _⟩ := ok.goto _ rfl
+      obtain ⟨htab, _⟩ := ok.goto _ rfl
+      simp only [PcInv] at htab
       rw [after_table, htab]; rfl
   · left
     refine ⟨t2, th2, r2, rest2, ?_, htodo2, hc, ho, f, hpc2⟩
@@ -558,7 +566,7 @@ theorem after_todo_sub {s : State Opts Factory} {t : Tid} {th : Thread Opts Fact
 theorem once_step {s : State Opts Factory} (inv : Inv P s) {t : Tid} {th : Thread Opts Factory}
     {r : Request Opts} {rest : List (Request Opts)} {eff : Eff Opts Factory} {nxt : Next Factory}
     (hth : s.threads[t]? = some th) (htodo : th.todo = r :: rest)
-    (ok : ActOK s t th r eff nxt) (c : Code) (o : Opts) :
+    (ok : ActOK T s t th r eff nxt) (c : Code) (o : Opts) :
     xcount (after s t th r eff nxt) c o ≤ 1 ∧
     (0 < xcount (after s t th r eff nxt) c o →
       (table (after s t th r eff nxt) c o).isSome = true ∨ Storing (after s t th r eff nxt) c o ∨
@@ -577,7 +585,10 @@ theorem once_step {s : State Opts Factory} (inv : Inv P s) {t : Tid} {th : Threa
   by_cases hx : ∃ c1 o1, eff = .logx c1 o1
   · obtain ⟨c1, o1, rfl⟩ := hx
     obtain ⟨rfl, rfl, hpc⟩ := ok.logx c1 o1 rfl
-    obtain ⟨f, rfl⟩ := ok.xform hpc
+    obtain ⟨f, rfl⟩ : ∃ f, nxt = .goto (.st1 f) := by
+      rcases ok.xform hpc with ⟨f, h, _⟩ | ⟨_, h⟩
+      · exact ⟨f, h⟩
+      · cases h
     have hcount1 : c = r.code → o = r.opts →
         xcount (after s t th r (.logx r.code r.opts) (.goto (.st1 f))) c o = xcount s c o + 1 := by
       rintro rfl rfl
@@ -633,7 +644,7 @@ namespace Malt.Cache
 
 section
 variable {Opts Factory : Type} [BEq Opts] [Hashable Opts] [LawfulBEq Opts]
-variable {T : Code → Opts → Nat → Factory} {P : List (Request Opts)}
+variable {T : Code → Opts → Nat → Option Factory} {P : List (Request Opts)}
 
 theorem Inv_stepThread {s : State Opts Factory} (inv : Inv P s) (t : Tid) : Inv P (stepThread T s t) := by
   cases hth : s.threads[t]? with
@@ -714,8 +725,9 @@ theorem Inv_stepThread {s : State Opts Factory} (inv : Inv P s) (t : Tid) : Inv 
             | goto pc' =>
               exact (ok.goto pc' rfl).2.mpr (Or.inr ⟨hlk, hnr⟩)
             | finish res =>
-              have := (ok.finish res rfl).2.1
-              rw [hlk] at this; cases this
+              rcases ok.finish res rfl with ⟨_, h1, _⟩ | ⟨_, h2, _⟩
+              · rw [hlk] at h1; cases h1
+              · exact absurd h2 hnr
             | blocked => exact hlk
           · exact ⟨th0, by rw [after_get_other r eff nxt hth htt]; exact hth0, hlk⟩
         cases eff with
@@ -729,7 +741,10 @@ theorem Inv_stepThread {s : State Opts Factory} (inv : Inv P s) (t : Tid) : Inv 
           refine ⟨rfl, _, after_get_self r _ nxt hth, ?_⟩
           cases nxt with
           | goto pc' => exact (ok.goto pc' rfl).2.mpr (Or.inl rfl)
-          | finish res => have := (ok.finish res rfl).2.2; cases this
+          | finish res =>
+            rcases ok.finish res rfl with ⟨_, _, h1⟩ | ⟨_, h2, _⟩
+            · cases h1
+            · cases h2
           | blocked => have := ok.blocked rfl; cases this
         | release =>
           obtain ⟨res, own, hpc⟩ := ok.release rfl
@@ -909,18 +924,22 @@ namespace Malt.Cache
 
 section
 variable {Opts Factory : Type} [BEq Opts] [Hashable Opts] [LawfulBEq Opts]
-variable {T : Code → Opts → Nat → Factory} {P : List (Request Opts)}
+variable {T : Code → Opts → Nat → Option Factory} {P : List (Request Opts)}
 
-/-- No finished request raised `KeyError`. -/
-def NoErr (s : State Opts Factory) : Prop :=
-  ∀ th ∈ s.threads, ∀ e ∈ th.results, ∃ f, e.2 = some f
+/-- A finished request that raised is one whose own conversion raised (never a `KeyError` from the
+cache); a thread that leaves the critical section with an error is in that situation. -/
+def ErrInv (T : Code → Opts → Nat → Option Factory) (s : State Opts Factory) : Prop :=
+  (∀ th ∈ s.threads, ∀ e ∈ th.results, e.2 = none → T e.1.code e.1.opts e.1.env.sig = none) ∧
+  (∀ (t : Tid) (th : Thread Opts Factory) (r : Request Opts) (rest : List (Request Opts)),
+    s.threads[t]? = some th → th.todo = r :: rest → ∀ own, th.pc = .rel none own →
+      T r.code r.opts r.env.sig = none)
 
-theorem NoErr_step {s : State Opts Factory} (inv : Inv P s) (h : NoErr s) (l : Label) :
-    NoErr (step T s l) := by
+theorem ErrInv_step {s : State Opts Factory} (inv : Inv P s) (h : ErrInv T s) (l : Label) :
+    ErrInv T (step T s l) := by
   cases l with
   | gc c => simp only [step]; split <;> exact h
   | thr t =>
-    show NoErr (stepThread T s t)
+    show ErrInv T (stepThread T s t)
     cases hth : s.threads[t]? with
     | none => rw [stepThread_none hth]; exact h
     | some th =>
@@ -931,25 +950,65 @@ theorem NoErr_step {s : State Opts Factory} (inv : Inv P s) (h : NoErr s) (l : L
         have ok := action_Inv (T := T) inv hth htodo
         generalize action T s t r th.pc = a at ok
         obtain ⟨eff, nxt⟩ := a
-        intro th' hth' e he
-        rcases mem_set_of hth' with hm | hm
-        · exact h th' hm e he
-        · subst hm
-          have hold := h th (List.mem_of_getElem? hth)
-          cases nxt with
-          | goto pc => exact hold e he
-          | blocked => exact hold e he
-          | finish res =>
-            simp only [applyNext, List.mem_append, List.mem_singleton] at he
-            rcases he with he | rfl
-            · exact hold e he
-            · exact (ok.finish res rfl).1
+        simp only at ok
+        constructor
+        · intro th' hth' e he hnone
+          rcases mem_set_of hth' with hm | hm
+          · exact h.1 th' hm e he hnone
+          · subst hm
+            have hold := h.1 th (List.mem_of_getElem? hth)
+            cases nxt with
+            | goto pc => exact hold e he hnone
+            | blocked => exact hold e he hnone
+            | finish res =>
+              simp only [applyNext, List.mem_append, List.mem_singleton] at he
+              rcases he with he | rfl
+              · exact hold e he hnone
+              · simp only at hnone
+                rcases ok.finish res rfl with ⟨⟨f, hf⟩, _⟩ | ⟨_, _, own, hpc⟩
+                · rw [hf] at hnone; cases hnone
+                · exact h.2 t th r rest hth htodo own hpc
+        · intro t' th' r' rest' hth' htodo' own hpc'
+          simp only at hth'
+          rw [threads_set_get hth] at hth'
+          by_cases htt : t' = t
+          · simp only [htt, if_true, Option.some.injEq] at hth'
+            subst hth'
+            cases nxt with
+            | goto pc' =>
+              have hr : r' = r := by
+                have : th.todo = r' :: rest' := htodo'
+                rw [htodo] at this; simp at this; exact this.1.symm
+              subst hr
+              have hpc2 : pc' = .rel none own := hpc'
+              subst hpc2
+              exact (ok.relnone own rfl).2
+            | finish res => simp [applyNext] at hpc'
+            | blocked =>
+              have hr : r' = r := by
+                have : th.todo = r' :: rest' := htodo'
+                rw [htodo] at this; simp at this; exact this.1.symm
+              subst hr
+              exact h.2 t th r' rest hth htodo own hpc'
+          · simp only [htt, if_false] at hth'
+            exact h.2 t' th' r' rest' hth' htodo' own hpc'
 
-theorem NoErr_run (V : ValInj P) {s : State Opts Factory} (inv : Inv P s) (h : NoErr s) (sched : List Label) :
-    NoErr (run T s sched) := by
+theorem ErrInv_init (progs : List (List (Request Opts))) : ErrInv T (init progs : State Opts Factory) := by
+  constructor
+  · intro th hth e he
+    simp only [init, List.mem_map] at hth
+    obtain ⟨p, _, rfl⟩ := hth
+    simp at he
+  · intro t th r rest hth _ own hpc
+    simp only [init, List.getElem?_map, Option.map_eq_some_iff] at hth
+    obtain ⟨p, _, rfl⟩ := hth
+    simp at hpc
+
+theorem ErrInv_run (V : ValInj P) {s : State Opts Factory} (inv : Inv P s) (h : ErrInv T s) (sched : List Label) :
+    ErrInv T (run T s sched) := by
   induction sched generalizing s with
   | nil => exact h
-  | cons l ls ih => exact ih (Inv_step V inv l) (NoErr_step inv h l)
+  | cons l ls ih => exact ih (Inv_step V inv l) (ErrInv_step inv h l)
 
 end
 
